@@ -181,7 +181,7 @@ Definition NfSide (ty : nf_type) (force rem : bool) (s : nf_state) (g : nf_ghost
   (force = false -> cx_glob_en x = true /\ cx_ck_en x = true) /\
   (oi_tick oi = false -> rem = false /\ nf_mayforce oi ty = force) /\
   (ty = NfProblem -> force = false -> oi_pdefer oi = true) /\
-  (oi_tick oi = true -> oi_remposs oi = true -> ty = NfProblem ->
+  (oi_tick oi = true -> ty = NfProblem -> oi_kp oi <= g_cnt g ->
      nf_rem_ctx_ok c x = true /\ (forall t, g_rem g = Some t -> t + nfc_interval c <= now) /\
      (nfc_interval c <= 0 -> nf_nomore s = false)).
 
@@ -270,9 +270,10 @@ Proof.
         rewrite Era. cbn [andb].
         assert (g0 = g) as Eg0. { unfold g0, nf_g0. apply nf_type_eqb_eq in Ep. subst ty. reflexivity. }
         destruct (oi_tick oi) eqn:Ht; cbn [negb andb].
-        -- destruct (oi_remposs oi) eqn:Hr; cbn [andb]; [|reflexivity].
+        -- destruct (oi_kp oi <=? g_cnt g0) eqn:Hr; cbn [andb]; [|reflexivity].
            apply nf_type_eqb_eq in Ep.
-           destruct (HSrem eq_refl eq_refl Ep) as (R1 & R2 & R3).
+           assert (oi_kp oi <= g_cnt g) as Hk by (rewrite <- Eg0; lia).
+           destruct (HSrem eq_refl Ep Hk) as (R1 & R2 & R3).
            rewrite R1. cbn [negb].
            assert ((match g_rem g0 with Some t => t + nfc_interval c <=? now | None => true end) = true) as K5.
            { rewrite Eg0. destruct (g_rem g) as [t|] eqn:Er; [|reflexivity]. apply Z.leb_le. apply R2. reflexivity. }
@@ -389,3 +390,49 @@ Proof.
     split; [exact K1|split; [exact K2|split; [assumption|split; [intros _; rewrite S0sup; auto|reflexivity]]]].
 Qed.
 End Begin.
+
+(* the per-operation count of Problem notifications moves by at most one per call, and only for Problem *)
+Lemma nf_g_cnt_mask c oi g : g_cnt (nf_g_mask c oi g) = g_cnt g.
+Proof. unfold nf_g_mask. destruct (nf_may_defer c oi); reflexivity. Qed.
+
+Lemma nf_g_cnt_clr c oi g : g_cnt (nf_g_ev c oi g NfoClr) = g_cnt g.
+Proof. unfold nf_g_ev. rewrite nf_g_cnt_mask. reflexivity. Qed.
+
+Lemma nf_g_cnt_done c oi g ty sent :
+  g_cnt (nf_g_ev c oi g (NfoDone ty sent)) = g_cnt g + (if nf_type_eqb ty NfProblem then 1 else 0).
+Proof.
+  unfold nf_g_ev. rewrite nf_g_cnt_mask. destruct (nf_type_eqb ty NfProblem); [reflexivity|].
+  destruct (nf_type_eqb ty NfRecovery); [cbn; lia|]. destruct (nf_type_eqb ty NfCustom); cbn; lia.
+Qed.
+
+Lemma nf_g_cnt_exec c oi g e :
+  let g' := nf_g_evs c oi g (nf_obs_ev (NfEvExec e)) in
+  g_cnt g <= g_cnt g' <= g_cnt g + 1 /\ (ne_type e <> NfProblem -> g_cnt g' = g_cnt g).
+Proof.
+  cbv zeta. rewrite nf_obs_exec. unfold nf_g_evs.
+  destruct (nf_type_eqb (ne_type e) NfRecovery) eqn:Er; destruct (ne_reached e); cbn [app fold_left];
+    rewrite ?nf_g_cnt_done, ?nf_g_cnt_clr.
+  - assert (nf_type_eqb (ne_type e) NfProblem = false) as Ep by (apply nf_type_eqb_eq in Er; rewrite Er; reflexivity).
+    rewrite Ep. split; lia.
+  - split; lia.
+  - destruct (nf_type_eqb (ne_type e) NfProblem) eqn:Ep; [|split; lia].
+    split; [lia|]. intro N. apply nf_type_eqb_eq in Ep. contradiction.
+  - split; lia.
+Qed.
+
+(* with the notification period open a call never touches suppressed_notifications *)
+Lemma nf_begin_sup c now x ty force rem s :
+  cx_per_closed x = false -> nf_sup (fst (nf_begin c now x ty force rem s)) = nf_sup s.
+Proof.
+  intro Po. unfold nf_begin.
+  assert (nf_sup (if nf_type_eqb ty NfRecovery then nf_set_lns s [] else s) = nf_sup s) as S0
+    by (destruct (nf_type_eqb ty NfRecovery); reflexivity).
+  destruct (nf_pre c now x ty force) eqn:G; cbn [fst].
+  - destruct (nf_loop _ _ _ _ _ _ _ _). cbn [fst nf_sup]. exact S0.
+  - destruct (nf_pre_period _ _ _ _ _ G) as [Pc _]. rewrite Pc in Po. discriminate.
+  - cbn. exact S0.
+  - exact S0.
+  - destruct (nf_type_eqb ty NfRecovery && (nfc_interval c <=? 0)); destruct (nf_type_eqb ty NfRecovery) eqn:Er;
+      cbn [nf_sup nf_set_npu nf_set_nomore]; try rewrite Er in S0; exact S0.
+  - exact S0.
+Qed.
